@@ -1,3 +1,4 @@
+import Proofs.C06Empty
 import Proofs.C06Pins
 import Proofs.C06Refine
 import Proofs.C06Conseq
@@ -242,6 +243,38 @@ example : runeCount [0xC3, 0xA9] = 1 ∧ runeCount [0xFF] = 1 ∧ runeCount [0xC
 example : csvJoin 44 [[]] = [34, 34] ∧ csvJoin 44 [] = [] ∧ csvJoin 44 [[], [97, 44]] = [44, 34, 97, 44, 34] := by decide
 example : floatToInt (.rat 1000001 1) > maxFieldIndex := by decide
 example : floatToInt (.inf false) > maxFieldIndex ∧ floatToInt .nan < 0 := by decide
+
+/-! ## `FS = ""`: one field per character (round 6; was "modelled, unproved") -/
+
+/-- With an empty field separator a non-empty record is split into its UTF-8 sequences (an invalid byte stands alone),
+whatever RS is: the fields concatenated give back the record, no field is empty, and NF is the character count. -/
+theorem split_fs_empty_spec (rs : Bool) (re : Option ρ) (line : Bytes) (hl : line ≠ []) :
+    split M rs [] re line = runes line ∧
+    (split M rs [] re line).flatten = line ∧
+    (∀ f ∈ split M rs [] re line, f ≠ []) ∧
+    (split M rs [] re line).length = runeCount line := by
+  rw [split_fs_empty M rs re line hl]
+  exact ⟨rfl, runes_flatten line, runes_nonempty line, rfl⟩
+
+/-- and on ASCII text the fields are the single bytes -/
+theorem split_fs_empty_ascii (rs : Bool) (re : Option ρ) (line : Bytes) (hl : line ≠ []) (h : ∀ b ∈ line, b < 0x80) :
+    split M rs [] re line = line.map (fun b => [b]) := by
+  rw [split_fs_empty M rs re line hl, runes_ascii line h]
+
+-- non-vacuity: "aé\xffb" gives four fields, the two-byte character kept whole, the invalid byte alone
+example : split (fun (_ : Unit) _ => []) true [] none [97, 0xC3, 0xA9, 0xFF, 98] = [[97], [0xC3, 0xA9], [0xFF], [98]] := by decide
+
+/-! ## RS = "" with a one-byte FS: newline is a field separator too (round 6; was "modelled, unproved") -/
+
+/-- In paragraph mode with a single-byte FS other than the blank, the fields are the FS-separated pieces split again at
+newlines with one trailing CR dropped, and so: no field contains FS or a newline, and fields are made of the record's bytes. -/
+theorem paragraph_char_split_spec (c : UInt8) (hc : c < 0x80) (h32 : c ≠ 32) (re : Option ρ) (line : Bytes) (hl : line ≠ []) :
+    split M true [c] re line = (splitSep [c] line).flatMap (fun f => (splitSep [10] f).map trimCR) ∧
+    ∀ f ∈ split M true [c] re line, c ∉ f ∧ (10 : UInt8) ∉ f ∧ ∀ x ∈ f, x ∈ line :=
+  ⟨split_paragraph_char M c hc h32 re line hl, split_paragraph_char_clean M c hc h32 re line hl⟩
+
+-- non-vacuity: "a:b\r\nc:d" with FS=":" in paragraph mode gives a, b (CR dropped), c, d
+example : split (fun (_ : Unit) _ => []) true [58] none [97, 58, 98, 13, 10, 99, 58, 100] = [[97], [98], [99], [100]] := by decide
 
 end GoawkModel.C06.Props
 
